@@ -34,6 +34,12 @@ class Tracker:
         self.flag_edges = flag_edges or {}   # (a, b) -> flag name
         self.flag_sites = flag_sites or {}   # block -> flag name (set when the call at block returns normally)
         self.sw = {e["block"]: e for e in bi.switches}
+        # `mem::replace(place, new)` on a tracked place: the call result carries the old value
+        self.replaced = {}
+        for n in list(self.names):
+            self.names.append("_old_" + n)
+            self.place["_old_" + n] = ("old", self.place[n])
+            self.kind["_old_" + n] = self.kind[n]
         # boolean locals all of whose definitions are constants (`matches!(..)`, `let done = ..;`) are
         # tracked too, so that a test on the tracked place routed through such a local stays path-sensitive
         self.bool_locals = []
@@ -112,10 +118,22 @@ class Tracker:
                 # a call given a mutable reference to a tracked place may change it
                 site = bi.by_block.get(b)
                 if site is not None:
-                    for a in site.args:
+                    handled_replace = False
+                    if site.key in (("core::mem::replace", "replace"), ("core::mem::take", "take")) and site.args:
                         for i, n in enumerate(self.names):
-                            if a == self.place[n] and self._is_mut_ref_arg(t, a):
-                                vals[i] = TOP
+                            if not n.startswith("_") and site.args[0] == self.place[n]:
+                                oi = self.names.index("_old_" + n)
+                                vals[oi] = vals[i]
+                                new = self.value_of_term(n, site.args[1]) if len(site.args) > 1 else TOP
+                                res.writes.append((b, n, vals[i], new, flags, t.get("sp", "")))
+                                vals[i] = new
+                                self.replaced[b] = n
+                                handled_replace = True
+                    if not handled_replace:
+                        for a in site.args:
+                            for i, n in enumerate(self.names):
+                                if a == self.place[n] and self._is_mut_ref_arg(t, a):
+                                    vals[i] = TOP
                     tv = tuple(vals)
             if k == "return":
                 res.at_return.add((b, tv, flags))
@@ -125,7 +143,24 @@ class Tracker:
                 e = self.sw.get(b)
                 handled = False
                 if e is not None:
+                    subj0 = e["subject"]
+                    if subj0[0] == "call" and subj0[3] in self.replaced and e["kind"] == "discr":
+                        # match on the value returned by mem::replace(tracked place, ..)
+                        n0 = self.replaced[subj0[3]]
+                        oi = self.names.index("_old_" + n0)
+                        v = vals[oi]
+                        handled = True
+                        for lab, tb in e["edges"].items():
+                            if v == TOP:
+                                nv = list(vals)
+                                if lab != "otherwise":
+                                    nv[oi] = lab
+                                succs.append((tb, tuple(nv)))
+                            elif lab == v or (lab == "otherwise" and v not in e["edges"]):
+                                succs.append((tb, tv))
                     for i, n in enumerate(self.names):
+                        if handled:
+                            break
                         subj = e["subject"]
                         if self.kind[n] == "enum" and e["kind"] == "discr" and subj == self.place[n]:
                             handled = True
